@@ -331,9 +331,7 @@ func c04List(l []string) *failure {
 	if v.ok != (len(want) == 0) || hxl(v.invalid) != hxl(want) {
 		return &failure{Stream: "oracle", What: "ValidateLicenses does not return exactly the invalid elements, in order and with multiplicity", Case: k, Impl: v.String(), Expected: fmt.Sprintf("%v %s", len(want) == 0, hxl(want))}
 	}
-	if v.invalid == nil {
-		return &failure{Stream: "oracle", What: "ValidateLicenses returned a nil slice", Case: k}
-	}
+	// (a nil slice and an empty slice both hold "no invalid elements": the property does not distinguish them)
 	count(fmt.Sprintf("list_invalid_%d", min(len(want), 5)))
 	// Satisfies errs iff the list is empty or some entry is invalid or compound
 	r := implSat("MIT", l)
